@@ -97,6 +97,11 @@ class Rows(Sub):
         yield [1048570, 1048580]
         yield [10 ** 7 - 2, 10 ** 7 + 2]
         yield [10 ** 9 - 2, 10 ** 9 + 2]
+        # "and beyond": rows that a detour through a double would conflate
+        yield [2 ** 53 - 3, 2 ** 53 + 5]
+        yield [10 ** 17 - 1, 10 ** 17 + 3]
+        yield [2 ** 64 - 1, 2 ** 64 + 3]
+        yield [10 ** 30 + 5, 10 ** 30 + 9]
 
     def check(self, env, case):
         lo, hi = case
@@ -190,6 +195,8 @@ class FullByRow(Sub):
             yield [lo, min(top, lo + self.BLOCK - 1)]
         yield [1048570, 1048580]
         yield [99999990, 100000001]
+        yield [2 ** 53 - 2, 2 ** 53 + 4]
+        yield [10 ** 20 + 1, 10 ** 20 + 4]
 
     def check(self, env, case):
         lo, hi = case
